@@ -9,32 +9,32 @@ Open Scope Z_scope.
 
 (* close a loop's recursive call: the induction hypothesis at the advanced state, weakened *)
 Ltac recur IH B2 :=
-  eapply okp_weaken; [apply IH; [post | side] | intros [? ?]; apply (loop_post_mono _ _ B2); lsimpl; side].
+  eapply okp_weaken; [apply IH; [post | side] | intros [? ?]; apply (loop_post_mono _ _ _ B2); lsimpl; side].
 
 Section Loops.
 Variable inp : bstr.
 Notation ilen := (Z.of_nat (length inp)).
 Variable base : Z.
 Hypothesis base_nonneg : 0 <= base.
-Notation inv := (inv inp).
-Notation wf := (wf inp).
-Notation step_post := (step_post inp).
-Notation loop_post := (loop_post inp).
+Notation inv := (inv inp base).
+Notation wf := (wfi inp base).
+Notation step_post := (step_post inp base).
+Notation loop_post := (loop_post inp base).
 
 (* ---------- lexLineComment ---------- *)
 
 Lemma line_comment_loop_ok fuel : forall l, wf l -> (Z.to_nat (ilen - l_pos l) < fuel)%nat ->
   okp (line_comment_loop inp ilen base fuel l) (loop_post 26 l).
 Proof.
-  induction fuel as [|f IH]; intros l Hw Hf; [lia|]. unfold LexerStates.wf in Hw. cbn [line_comment_loop].
+  induction fuel as [|f IH]; intros l Hw Hf; [lia|]. unfold wfi, LexerStates.wf in Hw. cbn [line_comment_loop].
   exec1. dest_hyps. exec1; [exec|].
   recur IH 26.
 Qed.
 
 Lemma lex_line_comment_ok l : inv LLineComment l -> okp (lex_line_comment inp ilen base l) (step_post LLineComment l).
 Proof.
-  intros (Hw & _). eapply okp_weaken; [apply line_comment_loop_ok; [exact Hw|apply loop_fuel_ok; unfold LexerStates.wf in Hw; lia]|].
-  intros p. apply (loop_post_step inp LLineComment). discriminate.
+  intros (Hw & Hit & _). cbn [is_done] in Hit. eapply okp_weaken; [apply line_comment_loop_ok; [split; [exact Hw|exact Hit]|apply loop_fuel_ok; unfold LexerStates.wf in Hw; lia]|].
+  intros p. apply (loop_post_step inp base LLineComment). discriminate.
 Qed.
 
 (* ---------- lexBlockComment ---------- *)
@@ -42,14 +42,14 @@ Qed.
 Lemma block_comment_loop_ok fuel : forall star l, wf l -> (Z.to_nat (ilen - l_pos l) < fuel)%nat ->
   okp (block_comment_loop inp ilen base fuel star l) (loop_post 12 l).
 Proof.
-  induction fuel as [|f IH]; intros star l Hw Hf; [lia|]. unfold LexerStates.wf in Hw. cbn [block_comment_loop].
+  induction fuel as [|f IH]; intros star l Hw Hf; [lia|]. unfold wfi, LexerStates.wf in Hw. cbn [block_comment_loop].
   exec1. dest_hyps. exec1; [exec|]. exec1; [recur IH 12|]. exec1; [exec|]. recur IH 12.
 Qed.
 
 Lemma lex_block_comment_ok l : inv LBlockComment l -> okp (lex_block_comment inp ilen base l) (step_post LBlockComment l).
 Proof.
-  intros (Hw & _). eapply okp_weaken; [apply block_comment_loop_ok; [exact Hw|apply loop_fuel_ok; unfold LexerStates.wf in Hw; lia]|].
-  intros p. apply (loop_post_step inp LBlockComment). discriminate.
+  intros (Hw & Hit & _). cbn [is_done] in Hit. eapply okp_weaken; [apply block_comment_loop_ok; [split; [exact Hw|exact Hit]|apply loop_fuel_ok; unfold LexerStates.wf in Hw; lia]|].
+  intros p. apply (loop_post_step inp base LBlockComment). discriminate.
 Qed.
 
 (* ---------- stringLexer ---------- *)
@@ -57,14 +57,14 @@ Qed.
 Lemma string_loop_ok fuel : forall q l, wf l -> (Z.to_nat (ilen - l_pos l) < fuel)%nat ->
   okp (string_loop inp ilen base fuel q l) (loop_post 12 l).
 Proof.
-  induction fuel as [|f IH]; intros q l Hw Hf; [lia|]. unfold LexerStates.wf in Hw. cbn [string_loop].
+  induction fuel as [|f IH]; intros q l Hw Hf; [lia|]. unfold wfi, LexerStates.wf in Hw. cbn [string_loop].
   exec1. dest_hyps. exec1; [exec|]. exec1; [exec1; dest_hyps; recur IH 12|]. exec1; [exec|]. recur IH 12.
 Qed.
 
 Lemma lex_string_ok q l : inv (LString q) l -> okp (lex_string inp ilen base q l) (step_post (LString q) l).
 Proof.
-  intros (Hw & _). eapply okp_weaken; [apply string_loop_ok; [exact Hw|apply loop_fuel_ok; unfold LexerStates.wf in Hw; lia]|].
-  intros p. apply (loop_post_step inp (LString q)). discriminate.
+  intros (Hw & Hit & _). cbn [is_done] in Hit. eapply okp_weaken; [apply string_loop_ok; [split; [exact Hw|exact Hit]|apply loop_fuel_ok; unfold LexerStates.wf in Hw; lia]|].
+  intros p. apply (loop_post_step inp base (LString q)). discriminate.
 Qed.
 
 (* ---------- lexCss ---------- *)
@@ -72,28 +72,28 @@ Qed.
 Definition css_post (l : lx) (r : lstate * lx + lx) : Prop :=
   match r with
   | inl p => loop_post 10 l p
-  | inr l1 => l_start l1 = l_start l /\ l_pos l + 1 <= l_pos l1 <= ilen /\ l_width l1 = 1 /\ l_dd l1 = l_dd l /\
+  | inr l1 => l_out l1 = l_out l /\ l_start l1 = l_start l /\ l_pos l + 1 <= l_pos l1 <= ilen /\ l_width l1 = 1 /\ l_dd l1 = l_dd l /\
               l_ticks l <= l_ticks l1 /\ l_ticks l1 - l_ticks l <= l_pos l1 - l_pos l
   end.
 
 Lemma css_loop_ok fuel : forall l, wf l -> (Z.to_nat (ilen - l_pos l) < fuel)%nat ->
   okp (css_loop inp ilen base fuel l) (css_post l).
 Proof.
-  induction fuel as [|f IH]; intros l Hw Hf; [lia|]. unfold LexerStates.wf in Hw. cbn [css_loop].
+  induction fuel as [|f IH]; intros l Hw Hf; [lia|]. unfold wfi, LexerStates.wf in Hw. cbn [css_loop].
   exec1. dest_hyps. exec1.
   - exec1. dest_hyps. subst. cbn [bind okp css_post]. post.
   - exec1; [cbn [okp css_post]; norm_bools; fin|].
     eapply okp_weaken; [apply IH; [post|side]|]. intros [p|l2]; cbn [css_post].
-    + apply (loop_post_mono _ _ 10); lsimpl; side.
+    + apply (loop_post_mono _ _ _ 10); lsimpl; side.
     + intros Hr. norm_bools. fin.
 Qed.
 
 Lemma lex_css_ok l : inv LCss l -> okp (lex_css inp ilen base l) (step_post LCss l).
 Proof.
-  intros (Hw & _). unfold LexerStates.wf in Hw. unfold lex_css, double_close. exec1. dest_hyps.
+  intros (Hw & Hit & _). unfold LexerStates.wf in Hw. cbn [is_done] in Hit. unfold lex_css, double_close. exec1. dest_hyps.
   eapply okp_bind; [apply css_loop_ok; [post|apply loop_fuel_ok; side]|].
   intros [p|l3] Hc; cbn [css_post] in Hc.
-  - cbn [okp]. apply (loop_post_step inp LCss); [discriminate|]. revert Hc. apply loop_post_mono; lsimpl; cbn [rank]; side.
+  - cbn [okp]. apply (loop_post_step inp base LCss); [discriminate|]. revert Hc. apply loop_post_mono; lsimpl; cbn [rank]; side.
   - lsimpl. exec.
 Qed.
 
@@ -101,7 +101,7 @@ Qed.
 
 Definition lit_space_post (ch0 : Z) (l : lx) (p : Z * lx) : Prop :=
   let '(ch, l1) := p in
-  l_start l1 = l_start l /\ l_dd l1 = l_dd l /\ l_pos l <= l_pos l1 <= ilen /\
+  l_out l1 = l_out l /\ l_start l1 = l_start l /\ l_dd l1 = l_dd l /\ l_pos l <= l_pos l1 <= ilen /\
   l_ticks l <= l_ticks l1 /\ l_ticks l1 - l_ticks l <= l_pos l1 - l_pos l + 1 /\
   (ch0 < 0 -> l_ticks l1 = l_ticks l).
 
@@ -129,7 +129,7 @@ Ltac exec' := repeat (dest_hyps; first [exec_idx | exec1]).
 
 Lemma lex_literal_ok l : inv LLiteral l -> okp (lex_literal inp ilen base l) (step_post LLiteral l).
 Proof.
-  intros (Hw & _). unfold LexerStates.wf in Hw. unfold lex_literal, double_close. exec1. dest_hyps.
+  intros (Hw & Hit & _). unfold LexerStates.wf in Hw. cbn [is_done] in Hit. unfold lex_literal, double_close. exec1. dest_hyps.
   eapply okp_bind; [apply literal_space_loop_ok; [side| |lia]; unfold loop_fuel; intros; fin|].
   intros [ch l1] Hl. unfold lit_space_post in Hl. cbn beta iota. dest_hyps.
   pose proof literal_lens as (C1 & C2).
